@@ -1,6 +1,8 @@
 // Package htmldoc provides HTML document parsing.
 package htmldoc
 
+import "strings"
+
 // parsedElement represents a parsed element from the HTML document.
 type parsedElement struct {
 	Type    ElementType
@@ -72,40 +74,116 @@ type TableCell struct {
 	ColSpan  int
 }
 
+// grid lays the cells out on the table grid: a cell that spans several columns
+// or rows is followed / underlaid by empty cells, so that every cell stands in
+// the grid column it occupies in the source table.
+func (t *ParsedTable) grid() [][]string {
+	const maxSpan = 1000
+	budget := 1 << 20 // empty cells added for spans over the whole table
+	var carry []int   // per grid column: rows below still covered by a cell above
+	out := make([][]string, 0, len(t.Rows))
+	for r, row := range t.Rows {
+		var line []string
+		col := 0
+		for _, cell := range row {
+			for col < len(carry) && carry[col] > 0 {
+				carry[col]--
+				line = append(line, "")
+				col++
+			}
+			cs, rs := cell.ColSpan, cell.RowSpan
+			if cs < 1 {
+				cs = 1
+			}
+			if cs > maxSpan {
+				cs = maxSpan
+			}
+			if rs < 1 {
+				rs = 1
+			}
+			if rest := len(t.Rows) - r; rs > rest {
+				rs = rest
+			}
+			if extra := cs*rs - 1; extra > budget {
+				cs, rs = 1, 1
+			} else {
+				budget -= extra
+			}
+			line = append(line, cell.Text)
+			for k := 1; k < cs; k++ {
+				line = append(line, "")
+			}
+			for k := 0; k < cs; k++ {
+				for len(carry) <= col+k {
+					carry = append(carry, 0)
+				}
+				carry[col+k] = rs - 1
+			}
+			col += cs
+		}
+		// columns to the right that a cell above still covers
+		last := -1
+		for k := col; k < len(carry); k++ {
+			if carry[k] > 0 {
+				last = k
+			}
+		}
+		for ; col <= last; col++ {
+			if carry[col] > 0 {
+				carry[col]--
+			}
+			line = append(line, "")
+		}
+		out = append(out, line)
+	}
+	return out
+}
+
 // ToMarkdown converts the table to markdown format.
 func (t *ParsedTable) ToMarkdown() string {
 	if len(t.Rows) == 0 {
 		return ""
 	}
 
-	var result string
-
-	// First row (header or first data row)
-	firstRow := t.Rows[0]
-	result += "|"
-	for _, cell := range firstRow {
-		result += " " + escapeMarkdown(cell.Text) + " |"
+	rows := t.grid()
+	width := 0
+	for _, row := range rows {
+		if len(row) > width {
+			width = len(row)
+		}
 	}
-	result += "\n"
+
+	var result strings.Builder
+	writeRow := func(row []string) {
+		result.WriteString("|")
+		for _, text := range row {
+			result.WriteString(" " + escapeMarkdown(text) + " |")
+		}
+		result.WriteString("\n")
+	}
+
+	// First row (header or first data row), as wide as the widest row: a
+	// markdown reader drops the cells of later rows beyond the header's width
+	first := rows[0]
+	for len(first) < width {
+		first = append(first, "")
+	}
+	writeRow(first)
 
 	// Separator
-	result += "|"
-	for range firstRow {
-		result += " --- |"
+	result.WriteString("|")
+	for range first {
+		result.WriteString(" --- |")
 	}
-	result += "\n"
+	result.WriteString("\n")
 
 	// Data rows: the first row has been written above the separator (markdown
 	// tables need a header line), so it must not be repeated here
-	for i := 1; i < len(t.Rows); i++ {
-		result += "|"
-		for _, cell := range t.Rows[i] {
-			result += " " + escapeMarkdown(cell.Text) + " |"
-		}
-		result += "\n"
+	for i := 1; i < len(rows); i++ {
+		writeRow(rows[i])
 	}
 
-	return result
+	return result.String()
 }
 
 // escapeMarkdown escapes special markdown characters in text.
